@@ -775,6 +775,12 @@ func (w *mw) drainErrs() {
 
 // shutdown disposes the machine so that the bubble can end.
 func (w *mw) shutdown() {
+	if w.s.Failed() {
+		// a violated machine may be wedged (leaked locks): do not wait for a
+		// graceful disposal, the bubble is abandoned instead
+		w.stop()
+		return
+	}
 	w.m.Dispose()
 	select {
 	case <-w.m.WhenDisposed():
